@@ -241,7 +241,7 @@ def run(ctx):
         for doc in res.printed:
             if "inp" in doc:
                 groups.setdefault(json.dumps(doc["inp"], sort_keys=True), []).append(doc)
-        for docs in groups.values():
+        for docs in ctx.sample(list(groups.values()), 12000, "inputs"):
             n += 1
             replay_group(ctx, docs, n)
             ctx.traces += len(docs)
